@@ -410,4 +410,64 @@ def formatLabels (l : Labels) (es : List PEntry) : Option (List Str) :=
   | .number => some (numberLabels es.length)
   | .alpha => alphaLabels es
 
+/-! ### `BaseStyle.format_bibliography` -/
+
+def mapDict {α β : Type} (f : α → β) (d : CIDict α) : CIDict β :=
+  { dict := d.dict.map fun p => (p.1, f p.2), keys := d.keys }
+
+/-- the same entry as the field-lookup model sees it (`str(person)` per role) -/
+def PEntry.toEntry (e : PEntry) : Entry :=
+  { key := e.key, type := e.type, fields := e.fields, persons := mapDict (fun ps => ps.map Person.toStr) e.persons }
+
+def mkDb (es : List PEntry) : BibData :=
+  { entries := es.foldl (fun d e => d.setItem e.key e.toEntry) CIDict.empty, wanted := none, citations := CISet.empty }
+
+structure Item where
+  template : T
+  personTemplates : List (Str × List T)
+
+inductive BibErr where
+  | missingField (field key : Str)      -- FieldIsMissing: 'missing <field> in <key>'
+  | unbalanced (key : Str)
+  | noTemplate (key : Str)              -- no get_<type>_template: AttributeError (unknown entry type: outside the domain)
+  | labelIndex                          -- IndexError in format_lab_names (unreachable)
+  | outOfFuel
+deriving DecidableEq, Repr
+
+structure Formatted where
+  key : Str
+  label : Str
+  text : RT
+
+def evalFuel : Nat := 1000
+
+def formatEntries (db : BibData) (items : Str → Option Item) : List (Str × PEntry) → Except BibErr (List Formatted)
+  | [] => .ok []
+  | (label, e) :: rest =>
+    match items e.key with
+    | none => .error (.noTemplate e.key)
+    | some it =>
+      match eval evalFuel { entry := e.toEntry, db := some db, personTemplates := it.personTemplates } it.template with
+      | .error (.missing f) => .error (.missingField f e.key)
+      | .error .unbalanced => .error (.unbalanced e.key)
+      | .error .outOfFuel => .error .outOfFuel
+      | .ok text =>
+        match formatEntries db items rest with
+        | .error err => .error err
+        | .ok l => .ok (⟨e.key, label, text⟩ :: l)
+
+/-- `format_bibliography(bib_data, citations)`: resolve (C05) → drop missing (reported) → sort →
+label → template.  Returns the data reports and the formatted entries or the (fatal) error. -/
+def formatBibliography (es : List PEntry) (items : Str → Option Item) (citations : List Str)
+    (minCrossrefs : Int) (sorting : Sorting) (labels : Labels) :
+    List Report × Except BibErr (List Formatted) :=
+  let db := mkDb es
+  let x := BibData.addExtraCitations db citations minCrossrefs
+  let m := BibData.removeMissingPy db x.1
+  let entries := m.1.filterMap fun k => es.find? fun e => lower e.key = lower k
+  let sorted := sortEntries sorting entries
+  match formatLabels labels sorted with
+  | none => (x.2 ++ m.2, .error .labelIndex)
+  | some ls => (x.2 ++ m.2, formatEntries db items (ls.zip sorted))
+
 end Pybtex.Tmpl
